@@ -427,8 +427,10 @@ func DriveMain(args []string) int {
 			total.Counters["inconclusive_stalls"]++
 			continue
 		}
-		if d.caseID == "" {
-			// the worker died outside any case: a defect of the harness itself
+		if d.caseID == "" || harnessPanic(d.stderr) {
+			// the worker died outside any case, or the panic was raised by harness
+			// code itself (first frame below the panic is in verif/harness): a
+			// defect of the harness, never a verdict about the property
 			harnessErrs = append(harnessErrs, fmt.Sprintf("worker %s (%s) died outside a case: %s :: %s", d.worker, d.build, d.why, firstLines(d.stderr, 8)))
 			continue
 		}
@@ -540,6 +542,31 @@ func DriveMain(args []string) int {
 		return 2
 	}
 	return 0
+}
+
+// harnessPanic reports whether a Go panic (not a runtime fatal error) was
+// raised directly by harness code: the first frame of the panicking goroutine
+// that is neither the runtime nor panic machinery belongs to verif/harness.
+func harnessPanic(stderr string) bool {
+	if !strings.Contains(stderr, "panic: ") || strings.Contains(stderr, "fatal error: ") {
+		return false
+	}
+	lines := strings.Split(stderr, "\n")
+	in := false
+	for _, l := range lines {
+		if strings.HasPrefix(l, "goroutine ") && strings.Contains(l, "[running]") {
+			in = true
+			continue
+		}
+		if !in || strings.HasPrefix(l, "\t") || l == "" {
+			continue
+		}
+		if strings.HasPrefix(l, "panic(") || strings.HasPrefix(l, "runtime.") || strings.HasPrefix(l, "runtime/") {
+			continue
+		}
+		return strings.HasPrefix(l, "verif/harness/")
+	}
+	return false
 }
 
 func firstLines(s string, n int) string {
